@@ -36,7 +36,7 @@ import (
 var c19Feeders = []string{"sumdb", "tiles", "pixel", "rekor", "serverless", "distributor"}
 var c19Sizes = []string{"normal", "0", "2^62", "2^62+5", "2^63-1", "2^63", "2^64-1"}
 var c19Roots = []int{32, 0, 5, 33}
-var c19Nets = []string{"", "", "trunc:9", "trunc:100", "oversize:3000000", "garbage:11", "status:500", "status:404", "status:301", "stall", "empty", "corrupt:3", "drop", "contentlength:4611686018427387904", "contentlength:3", "literal:0", "literal:0", "literal:x", "mixed", "mixed", "mixed"}
+var c19Nets = []string{"", "", "trunc:9", "trunc:100", "oversize:3000000", "garbage:11", "status:500", "status:404", "status:301", "stall", "empty", "corrupt:3", "drop", "contentlength:4611686018427387904", "contentlength:3", "literal:0", "literal:x", "mixed", "mixed", "contentlength:4611686018427387904", "oversize:3000000"}
 
 func c19Size(s string) uint64 {
 	switch s {
@@ -290,7 +290,7 @@ func c19Run(c c19Case) string {
 		if h := splitmix(strHash(class) ^ uint64(occ) ^ c.NetSeed); h%3 == 0 {
 			if c.Net == "mixed" {
 				// every faulted request gets a fault of its own (a 404 for one tile and a truncated body for the next)
-				k := c19Nets[2+(h/3)%16] // one of the single kinds
+				k := c19Nets[2+(h/3)%15] // one of the single kinds
 				if k == "literal:x" {
 					k = "literal:1"
 				}
